@@ -13,6 +13,7 @@ import json
 
 from .. import renderworld as rw
 from ..core import EventLog, Violation, OK, violation_result
+from ..models import sgr
 from .c10 import gen_enum, NAMES_S, first_diff
 
 ID = "C13"
@@ -23,6 +24,8 @@ REQUIRED_PROBES = ("probes", "probe_fresh", "probe_printed", "probe_inflight", "
                    "noop_assign_inflight", "ctor_roundtrips", "setter_roundtrips", "tasks_completed")
 
 REAL_VS_STUB = {'real': ['ak.color, ak.ppobj, ak.hdoc, ak.ghist (report building and formatting), ak.mcaller_http (help of method callers)'], 'stub': ['id() as seen by ak.ppobj/ak.color/ak.hdoc/ak.ghist -> simulated allocator with adversarial re-use', 'cyclic GC timing -> gc.disable() + scheduled gc.collect()', 'the git repository behind ProjectRepo -> deterministic in-memory fake (sim/fakegit.py)', 'process-global state -> one fresh forked process per run, one pristine forked process per reference rendering', 'ssl.SSLContext.load_default_certs -> no-op; logging disabled']}
+
+ASSUMPTIONS = ['tables use explicit fields or namedtuple records (value paths are not serialised by design)', 'records are never mutated during a run', 'only immediate round trips are compared: a saved string applied after other changes must be accepted, its rendering is not compared', 'in-flight renderings overlapped by a real format change or column removal are excluded']
 
 RULE = ("each run = one table (2-5 fields, 0-12 records, shared enum field type, titles, header/footer, explicit fields or "
         "namedtuples) with a generated format (fixed and ranged widths, /modifier, break-by !, repeated fields, hidden "
@@ -375,8 +378,8 @@ def execute(trace, rng):
                     w.tasks.pop(op["task"], None)
                     w.stats["tasks_completed"] += 1
                     if task.valid and task.lines is not None:
-                        got = "\n".join(task.lines)
-                        if got != task.want:
+                        got = sgr.canon("\n".join(task.lines))
+                        if got != sgr.canon(task.want):
                             raise Violation("in-flight", "lines-differ-from-rendering-at-start",
                                             "a rendering consumed line by line, overlapped only by format assignments "
                                             "that change nothing, differs from the whole rendering taken when it started: "
